@@ -128,7 +128,7 @@ DiscardE(eng, st, z) == IF z = 0 THEN st ELSE DiscardE(eng, StepE(eng, st).post,
 
 \* E(s): the engines store the seed in (the first word of) the state, every other word is zero
 DefaultSeed == 5489
-SeedLimbs(eng, v) == [k \in 1..WordLimbs(eng) |-> (v \div 65536^(k - 1)) % 65536]        \* v < 2^31
+SeedLimbs(eng, v) == [k \in 1..WordLimbs(eng) |-> IF k = 1 THEN v % 65536 ELSE IF k = 2 THEN v \div 65536 ELSE 0]   \* 0 <= v < 2^31
 CtorE(eng, seed) == IF eng \in XoEngines THEN seed \o [k \in 1..6 |-> 0] ELSE seed
 
 \* ---- distributions: floating-point values travel as the limbs of an order-preserving 64-bit key ------------------
